@@ -5,7 +5,7 @@ import heapq
 from gcommon import *
 
 THEOREMS = ["Parmcb.C12." + t for t in ["c12_lexLess_irrefl", "c12_lexLess_asymm", "c12_lexLess_trans", "c12_lexLess_total",
-            "c12_dist_lower", "c12_dist_attained", "c12_first", "c12_dijkstra", "c12_lex_optimal", "c12_consistency"]]
+            "c12_dist_lower", "c12_dist_attained", "c12_first", "c12_dijkstra", "c12_lex_optimal", "c12_consistency", "c12_first_walk", "c14_parity_walk"]]
 
 def dijkstra(n, WE, s):
     adj = {}
@@ -57,7 +57,7 @@ def run(tier, replay=None):
     res = Result("C12", tier, "proof")
     res.assumptions = ["mutual consistency is a theorem about the literal model (c12_consistency: every root path is THE lexicographically smallest simple path, such paths are unique and closed under reversal and sub-paths); the C++ trees are tied to the model field by field and the consistency check is additionally evaluated on the C++ trees on every run",
                        "heap layout cannot matter: queued labels are totally ordered by lexLess (c12_lexLess_*)"]
-    lean_ok = lean_gate(res, "Parmcb.Props.C12b", THEOREMS)
+    lean_ok = lean_gate(res, "Parmcb", THEOREMS)
     binary, log = compile_harness("h_graph.cpp", sanitize=(tier == "thorough"))
     if binary is None:
         res.violation("harness does not compile against the working tree", {"kind": "compile", "log": log[-3000:]}, found=False); return res.finish()
